@@ -168,8 +168,8 @@ func gen(a vh.Args) {
 			os.Exit(1)
 		}
 		w.Printf("%s\n", caseLine(cfg.name, res))
-		info.Printf("%s dims=%s concurrent=%v slow=%d/%v checkQuorum=%v clients=%d keys=%d nonvoting=%v ops=%d log=%d net(sent,dropped,delayed,delivered)=%v notes=%v smcheck=%q mon=%q finalOK=%v\n",
-			cfg.name, dims(cfg), cfg.concurrent, cfg.slowReplica, cfg.slowDwell, cfg.checkQuorum, cfg.clients, cfg.keys, cfg.nonVoting, len(res.ops), len(res.log), res.net, res.notes, res.smcheck, res.mon, res.finalOK)
+		info.Printf("%s timing=%s dims=%s concurrent=%v slow=%d/%v checkQuorum=%v clients=%d keys=%d nonvoting=%v ops=%d log=%d net(sent,dropped,delayed,delivered)=%v notes=%v smcheck=%q mon=%q finalOK=%v\n",
+			cfg.name, res.timing, dims(cfg), cfg.concurrent, cfg.slowReplica, cfg.slowDwell, cfg.checkQuorum, cfg.clients, cfg.keys, cfg.nonVoting, len(res.ops), len(res.log), res.net, res.notes, res.smcheck, res.mon, res.finalOK)
 	}
 }
 
